@@ -132,8 +132,20 @@ class C09(common.Spec):
                     log.append(['src', 'calc', v[1]])
                     raise Tagged(v[1])
                 return v
+            class AStop(edzed.AddonAsync, edzed.SBlock):
+                """a block with asynchronous clean-up whose synchronous stop() fails"""
+                def init_regular(self):
+                    self.set_output(0)
+
+                def stop(self):
+                    raise RuntimeError('stop failed (block with stop_async)')
+
+                async def stop_async(self):
+                    await asyncio.sleep(0)
             hp = HP('hp')
             mt = MT('mt')
+            if case.get('stop_error') == 'async':
+                AStop('astop', stop_timeout=1.0)
             trig = edzed.Input('trig', initdef=0)
             edzed.FuncBlock('fb', func=calc).connect(trig)
             trig2 = edzed.Input('trig2', initdef=0)
@@ -372,7 +384,7 @@ def gen_case(rng):
         tag += 1
     return dict(events=events, sups=sups, tail_us=rng.choice([0, 150_000]),
                 async_init_error=rng.random() < 0.15, restore_error=rng.random() < 0.15,
-                stop_error=rng.random() < 0.15,
+                stop_error=rng.choice([False] * 11 + [True, 'async']),
                 sync_init_error=rng.choice([None] * 12 + ['direct', 'via_restore', 'via_async', 'abort_in_init']))
 
 
@@ -390,7 +402,7 @@ def check(run):
     run.assumptions = ["the delivery order of two errors raised in the same instant by different tasks is "
                        "asyncio's; the observed order is what the model is given (the theorems hold for "
                        "either order)"]
-    cases = [gen_case(run.rng) for _ in range(1500 if run.tier == 'quick' else 15000)]
+    cases = [gen_case(run.rng) for _ in range(1500 if run.tier == 'quick' else 45000)]
     for c in cases:
         for e in c['events']:
             run.count('src_' + e[1])
